@@ -50,11 +50,24 @@ RULE = ('a case = (reference FRU device: 2-4 FRU ids 0..255 incl. id 0 with dist
         '2..5-chunk writes for the named sizes.  The write oracle reads the REQUEST TRACE: the first Write FRU Data '
         'acknowledged with another count than it carried must be the LAST exchange of the write and the write must end '
         'in an exception (signatures count-mismatch[:larger] = one deviation, success; count-mismatch:several = two or '
-        'more, success; count-mismatch:reported-late = requests went on after the deviation).')
+        'more, success; count-mismatch:reported-late = requests went on after the deviation).  THE END OF THE 16-BIT '
+        'OFFSET SPACE: devices holding exactly 65536, 65535 and 65534 bytes (FRU id 0 / random, the other FRUs small) '
+        'under limits 255, 16 (C8h), 2 (C9h), 5 (CAh) and short-serving 31: explicit ranges that touch the end - (n-1, 1), '
+        '(n-2, 2), (n-16, 16), (n-7, 7), (n-32, 32), (n-33, 33), (n-255, 255), (n-256, 256), (FC00h, to the end), '
+        'offsets FF00h..FFFFh with counts that stay inside - an offset alone, a range that leaves the contents (model '
+        'only), writes of 1 / 16 / 17 / 33 / 40 bytes whose last byte is the last byte of the device, and the full read '
+        '(of the 65536-byte device in the quick tier, of all in the thorough tier); signature read_fru_data:data.')
 ASSUMPTIONS = [
     'the device is the Lean reference device (Spec/FruDevice.lean): limit enforced by rejecting (or, second mode, by '
     'serving short); reads outside the area are refused with C9h; it never serves zero bytes; a write stores at most '
     'wmax bytes and acknowledges what it stored (an acknowledge LARGER than the chunk comes from the fault wrapper only)',
+    '"FRU contents up to 64 KiB" is read as: up to 65536 bytes, every byte a 16-bit Read / Write FRU Data offset can '
+    'address (an explicit range may end at 10000h: offset <= FFFFh, the count any number the caller names).  The size '
+    'Get FRU Inventory Area Info reports is a 16-bit field (IPMI v2.0 table 34-1, "in bytes"): the reference device '
+    'reports min(size, FFFFh) (Spec.Fru.infoSize), so for a 65536-byte device "the whole inventory area" of '
+    'read_fru_data_full / an offset given alone is the 65535 bytes it reports (Props/C10.read_full_of_64k_device) and '
+    'the last byte is reachable through an explicit range only (read_reaches_last_byte_of_64k); larger devices are not '
+    'generated',
     'FRU area *parsers* are substituted by recorders of the bytes handed to them (their correctness is C15); '
     'InventoryCommonHeader is the real one',
     'termination of the real loops is observed (request cap), in the model it is fuel derived from the loop measure',
@@ -1155,7 +1168,9 @@ def run(ctx):
         go(dev, op, 'half-range')
         ctx.count('half-range:%s' % ('count-only' if op[2] == 'n' else 'offset-only'))
     # 3. large areas (boundary of the 16-bit offset)
-    for big in ([4096, 65535] if quick else [4096, 32768, 65534, 65535, 65535]):
+    #    (quick: the full read is done on the 65536-byte device - it reports FFFFh like the 65535-byte one, which
+    #    gets its ranges, an offset alone and writes in 3b)
+    for big in ([4096, 65536] if quick else [4096, 32768, 65534, 65535, 65535, 65536]):
         dev = gen_device(rng, sizes=[0, 9, 300], big=big)
         dev['limit'] = rng.choice([32, 33, 64, 255]) if quick else rng.choice([8, 31, 32, 255])
         fid = int(dev['frus'][0][0])
@@ -1170,20 +1185,23 @@ def run(ctx):
         ends = [(n - 1, 1), (n - 2, 2), (n - 16, 16), (n - 7, 7), (n - 32, 32), (n - 33, 33), (n - 255, 255),
                 (n - 256, 256), (0xFC00, n - 0xFC00), (0xFF00, 16), (0xFFF0, min(15, n - 0xFFF0)), (n - 2, 1),
                 (0xFFFD, 1), (0xFF00 + erng.randrange(0, 0xF0), erng.randrange(1, 16))]
+        ends = [(o, c) for o, c in ends if o >= 0 and c >= 1 and o + c <= n]
         if n != 65536 and quick:
             ends = ends[:4] + [erng.choice(ends[4:])]
         for lim, cc, short in ((255, 0xCA, False), (16, 0xC8, False), (2, 0xC9, False), (5, 0xCA, False), (31, 0xCA, True)):
             dev = gen_device(erng, sizes=[0, 9, 300], big=n)
             dev.update(limit=lim, cc=cc, short=short, wmax=255)
             fid = int(dev['frus'][0][0])
-            picks = ends if (lim == 255 or not quick) else [ends[0], erng.choice(ends[1:4]), erng.choice(ends[4:])]
+            picks = ends if (lim == 255 or not quick) else \
+                [ends[0], erng.choice(ends[1:4]), erng.choice([e for e in ends[3:] if e[1] <= 64 or lim > 5])]
             for off, cnt in picks:
                 go(dev, ['read', str(fid), str(off), str(cnt)], 'large')
                 ctx.count('64k:range-ends-at:%s' % ('10000h' if off + cnt == 65536 else 'FFFFh' if off + cnt == 65535
                                                     else 'below'))
             ctx.count('64k:device-bytes:%d' % n)
             if lim == 255:
-                go(dev, ['full', str(fid)], 'large')
+                if not quick:
+                    go(dev, ['full', str(fid)], 'large')
                 go(dev, ['read', str(fid), str(n - 5), 'n'], 'large')
                 go(dev, ['read', str(fid), str(n - 1), '2'], 'large')          # leaves the contents: model only
                 for ln, wl in ((1, 16), (16, 16), (17, 16), (40, 255), (33, 5)):
